@@ -752,3 +752,45 @@ def rule_spectral_sqrt(ctx: Ctx, rel: str = DMF, fname: str = "sqrtm_psd") -> No
                      "(an eigenvalue of 1e-9 contributes 3e-5 to Tr sqrt)", func=fname, construct=f"{fname}: {why}")
     else:
         ctx.ok("num.spectral-sqrt", m, used[0], what="sqrt of the eigh spectrum, clipped at 0 only")
+
+
+# --------------------------------------------------------------------------- num.spectra-paired
+
+
+def rule_spectra_paired(ctx: Ctx, rels) -> None:
+    """num.spectra-paired: eigh / eigvalsh return eigenvalues in ascending order.  Combining the eigenvalue arrays of two *different* matrices
+    entry by entry (p * q, p - q, sqrt(p * q) ...) pairs the i-th smallest of one with the i-th smallest of the other, which says nothing
+    about which eigenvalues share an eigenvector — even for commuting matrices (diag(.9, .1) and diag(.1, .9) have the same sorted
+    spectrum).  Spectral formulas for two matrices need a common eigenbasis (or the matrix functions themselves)."""
+    repo = ctx.repo
+    scanned = hits = 0
+    for rel in rels:
+        m = repo.module(rel)
+        for fn in [f for f in ast.walk(m.tree) if isinstance(f, ast.FunctionDef)]:
+            scanned += 1
+            spec = {}
+            for a in ast.walk(fn):
+                if isinstance(a, ast.Assign) and len(a.targets) == 1 and isinstance(a.value, ast.Call):
+                    cn = (call_name(a.value) or "").split(".")[-1]
+                    if cn in ("eigh", "eig") and a.value.args and isinstance(a.targets[0], ast.Tuple) and a.targets[0].elts and isinstance(a.targets[0].elts[0], ast.Name):
+                        spec[a.targets[0].elts[0].id] = norm(a.value.args[0])
+                    elif cn in ("eigvalsh", "eigvals") and a.value.args and isinstance(a.targets[0], ast.Name):
+                        spec[a.targets[0].id] = norm(a.value.args[0])
+            if len(set(spec.values())) < 2:
+                continue
+
+            def spectrum_of(e):
+                names = {x.id for x in ast.walk(e) if isinstance(x, ast.Name) and x.id in spec}
+                return {spec[n_] for n_ in names}
+            for b in [x for x in ast.walk(fn) if isinstance(x, ast.BinOp) and isinstance(x.op, (ast.Mult, ast.Add, ast.Sub, ast.Div))]:
+                l_, r_ = spectrum_of(b.left), spectrum_of(b.right)
+                if l_ and r_ and len(l_ | r_) >= 2 and len(l_) == 1 and len(r_) == 1:
+                    hits += 1
+                    ctx.touch(m, fn)
+                    ctx.fail("num.spectra-paired", m, b,
+                             f"{qualname(fn)} combines the sorted eigenvalues of `{sorted(l_)[0]}` and of `{sorted(r_)[0]}` entry by entry (`{short(b, 70)}`): the i-th smallest "
+                             f"eigenvalues of two matrices need not belong to a common eigenvector, even when the matrices commute (diag(.9,.1) and diag(.1,.9): "
+                             f"this gives fidelity 1 where the true value is 0.36)", func=qualname(fn), construct=f"{qualname(fn)}: spectra of two matrices paired by position")
+                    break
+    ctx.ok_abstract("num.spectra-paired", f"{scanned} functions scanned, {hits} entrywise combinations of two different spectra")
+
